@@ -471,7 +471,7 @@ pub fn sync_race(v: &Verdicts, attempts: usize, seed0: u64) -> RaceStats {
         }
     };
     adm.call(&dbs, "set sentinel start");
-    if !drain_until(&mut mrx, &mut stream, &mut |s: &[String]| s.iter().any(|l| l.contains(" sentinel ") && l.ends_with(" start")), Duration::from_secs(20)) {
+    if !drain_until(&mut mrx, &mut stream, &mut |s: &[String]| s.iter().any(|l| l.starts_with("rp ") && l.contains(" sentinel ") && l.ends_with(" start")), Duration::from_secs(20)) {
         v.inconclusive("sync race: the replication loop did not forward the first write within 20 s");
         return st;
     }
@@ -508,8 +508,8 @@ pub fn sync_race(v: &Verdicts, attempts: usize, seed0: u64) -> RaceStats {
                     let (dbi, j) = (j / KEYS, j % KEYS);
                     let key = format!("k{}_{}", w, j);
                     let val = format!("a{}n{}", a, i);
-                    ss[dbi].call(&d, &format!("set {} {}", key, val));
-                    last.insert(format!("{} {}", RACE_DBS[dbi], key), val);
+                    let rep = ss[dbi].call(&d, &format!("set {} {}", key, val));
+                    last.insert(format!("{} {}", RACE_DBS[dbi], key), format!("{}\u{1}{}", val, rep.resp));
                     // paced, so that the replication loop keeps up and forwards a write soon after it was accepted
                     let until = Instant::now() + Duration::from_micros(10 + r.below(60) as u64);
                     while Instant::now() < until {
@@ -527,9 +527,14 @@ pub fn sync_race(v: &Verdicts, attempts: usize, seed0: u64) -> RaceStats {
         std::thread::sleep(Duration::from_micros(8000 + rng.below(4000) as u64));
         stop.store(true, Ordering::SeqCst);
         let mut expected: BTreeMap<String, String> = BTreeMap::new();
+        let mut replies: BTreeMap<String, String> = BTreeMap::new();
         for h in hs {
             if let Ok(m) = h.join() {
-                expected.extend(m);
+                for (k, vr) in m {
+                    let (val, rep) = vr.split_once('\u{1}').unwrap();
+                    expected.insert(k.clone(), val.to_string());
+                    replies.insert(k, rep.to_string());
+                }
             }
         }
         adm.call(&dbs, "use-db r0 tok");
@@ -538,7 +543,13 @@ pub fn sync_race(v: &Verdicts, attempts: usize, seed0: u64) -> RaceStats {
         let ok = drain_until(
             &mut mrx,
             &mut stream,
-            &mut |s: &[String]| s.iter().any(|l| l.contains(" sentinel ") && l.ends_with(&tail)) && (!full || s.iter().filter(|l| l.starts_with("replicate-snapshot ")).count() >= RACE_DBS.len()),
+            // the sentinel as forwarded by the loop (a since-a-time catch-up can carry the sentinel key too), and the catch-up
+            // block itself (it is queued in one go; a full one ends with one replicate-snapshot per database)
+            &mut |s: &[String]| {
+                s.iter().any(|l| l.starts_with("rp ") && l.contains(" sentinel ") && l.ends_with(&tail))
+                    && s.iter().any(|l| !l.starts_with("rp "))
+                    && (!full || s.iter().filter(|l| l.starts_with("replicate-snapshot ")).count() >= RACE_DBS.len())
+            },
             Duration::from_secs(20),
         );
         if !ok {
@@ -601,7 +612,10 @@ pub fn sync_race(v: &Verdicts, attempts: usize, seed0: u64) -> RaceStats {
                     }
                     let dup: Vec<String> = by_id.iter().filter(|(_, v)| v.len() > 1).flat_map(|(_, v)| v.iter().map(|i| format!("[{}] {}", i, stream[*i]))).take(6).collect();
                     let sig = json!({"check": "rejoin", "engine": "free-running-threads", "problem": if dup.is_empty() { "accepted-write-never-forwarded-to-the-secondary" } else { "accepted-write-never-forwarded-another-message-went-out-twice-under-one-operation-id" }});
-                    v.report(sig, json!({"key": key, "primary_value": want, "last_line_sent_to_the_secondary_about_the_key": stream[*idx], "lines_sharing_an_operation_id": dup, "attempt": a}));
+                    v.report(sig, json!({"key": key, "primary_value": want, "reply_to_the_write": replies.get(key), "last_line_sent_to_the_secondary_about_the_key": stream[*idx], "lines_sharing_an_operation_id": dup, "attempt": a,
+                        "live_lines_in_stream": stream.iter().filter(|l| l.starts_with("rp ")).count(), "writes_acknowledged_this_attempt": expected.len(),
+                        "lines_ending_with_the_value": stream.iter().enumerate().filter(|(_, l)| l.ends_with(want.as_str())).map(|(i, l)| format!("[{}] {}", i, l)).collect::<Vec<_>>(),
+                        "stream_tail": stream.iter().rev().take(5).rev().collect::<Vec<_>>()}));
                     continue;
                 }
                 if got != want && *from_sync {
